@@ -117,7 +117,8 @@ CHECKS = {
               "sz_{float,double}_ts.c) the same theorems hold for every run on which the model's evaluated flags hold, and the temporal quantisers are proved "
               "to emit only re-checked codes. The pre-repair behaviour (verbatim step) is a refuted statement with a witness. On every run: compressor "
               "and a forked decompressor process on random step sequences and schedules; history digests and bounds checked after every step; 1-D "
-              "variables compared bit for bit with the model, schedule decisions with the model's resolve function."),
+              "variables compared bit for bit with the model, schedule decisions with the model's resolve function. Point-wise relative variables (compressed by the "
+              "point-wise relative kernels at every step, no temporal prediction) are part of the explored sets and judged per step by the relative bound; they are outside the model."),
         note=TB_COMMON + "Multi-dimensional snapshot kernels are not transcribed (oracle only). Axioms of the float/double instance theorems: Flocq's use of the standard library's real numbers (ClassicalDedekindReals.sig_not_dec, sig_forall_dec, functional_extensionality_dep, Classical_Prop.classic). Built with -DHAVE_TIMECMPR.",
         technique="Coq proof (lock-step and per-step bound by induction over step sequences, generic in the kernels) + bit-exact model/implementation comparison + two-process differential"),
     "C15": dict(
